@@ -27,6 +27,11 @@ pub fn query_get_price(deps: Deps, key: String) -> StdResult<PriceData> {
     let prices = prices_response.unwrap();
     let price = prices.last().unwrap();
 
+    // a key nothing was ever submitted under only holds the empty placeholder round 0
+    if price.round_id.is_zero() {
+        return Err(StdError::generic_err("No price submitted"));
+    }
+
     Ok(price.clone())
 }
 
